@@ -97,7 +97,13 @@ def qbytes_mm_impl_cpu(activations: torch.Tensor, weights: torch.Tensor, output_
     ):
         return qbytes_int_mm(activations, weights, output_scales)
     in_features = activations.shape[-1]
-    if activations.dtype == torch.bfloat16 and weights.dtype == torch.int8 and in_features % 4 == 0:
+    if (
+        activations.dtype == torch.bfloat16
+        and weights.dtype == torch.int8
+        and in_features % 4 == 0
+        # torch._weight_int8pack_mm expects one scale per output feature
+        and output_scales.numel() == weights.shape[0]
+    ):
         if type(activations) != torch.Tensor:
             activations = activations.dequantize()
         return qbytes_int8pack_mm(activations, weights, output_scales)
